@@ -234,7 +234,7 @@ out:
     free(expr);
 }
 
-static const char alpha[] = "12-.:,!@ AE+";
+static const char alpha[] = "12-.:,!@ AE+0";
 
 int main(int argc, char ** argv) {
     int L, len, i;
@@ -251,7 +251,7 @@ int main(int argc, char ** argv) {
                 check_body(s, len, len >= 6 ? 4 : 9);
                 if ((mc_executed & 0xff) == 0) SCPI_ErrorClear(&ctx);
             }
-            for (i = len - 1; i >= 0; i--) { if (++idx[i] < 12) { s[i] = alpha[idx[i]]; break; } idx[i] = 0; s[i] = alpha[0]; }
+            for (i = len - 1; i >= 0; i--) { if (++idx[i] < 13) { s[i] = alpha[idx[i]]; break; } idx[i] = 0; s[i] = alpha[0]; }
             if (i < 0) break;
         }
     }
